@@ -17,6 +17,7 @@ type Stats struct {
 	RegionsA, RegionsB int
 	Locs               int // mutation points found on both sides
 	Effective          int // mutations that changed the mutated side's own snapshot (all others are no-ops)
+	EffectiveSites     map[string]int
 	Skipped            map[string]int
 }
 
@@ -28,7 +29,7 @@ type Stats struct {
 // before (otherwise the engine itself is broken: panic).
 func CheckDisjoint(a, b interface{}, snapA, snapB func() string) ([]Finding, Stats) {
 	ga, gb := Collect(a), Collect(b)
-	st := Stats{RegionsA: len(ga.Regions), RegionsB: len(gb.Regions), Skipped: map[string]int{}}
+	st := Stats{RegionsA: len(ga.Regions), RegionsB: len(gb.Regions), Skipped: map[string]int{}, EffectiveSites: map[string]int{}}
 	for k, n := range ga.Skipped {
 		st.Skipped[k] += n
 	}
@@ -56,6 +57,7 @@ func CheckDisjoint(a, b interface{}, snapA, snapB func() string) ([]Finding, Sta
 			undo()
 			if changedOwn {
 				st.Effective++
+				st.EffectiveSites[l.Site]++
 			}
 			if after != before {
 				out = append(out, Finding{"mutation-visible", l.Site, fmt.Sprintf("changing %s location %s of the %s in place changed what is observable through the other value: %s",
